@@ -216,7 +216,7 @@ func c08Worker(kind string, n int) int {
 
 func checkC08(c *Check) {
 	c.Level = "exploration"
-	c.rule = "MC_Hostile generates script texts as sequences of 82 lexemes (every token kind, brackets, quotes, backslash, NUL, multi-byte characters, keywords, literal fragments): every sequence of length 1-2 (thorough: 3) exhaustively by TLC, longer ones (to 14; thorough 40) in TLC's simulation mode (every candidate successor of every simulated step), each joined with and without spaces; plus every invalid text of MC_Reject; each text goes through Prepare and, if accepted, Execute and Run twice on two objects (a deadline of 60 ms set before Prepare): no call may panic into the harness, Execute may not return (nil, nil), no scope may stay open; 22 field-reading scripts x 32 odd objects (nil, non-struct values, slices whose members the engine cannot convert - []uint16, [][]string, []*T with a nil, []interface{} holding nil / struct / func / chan - read whole, by index and by foreach, structs with unexported / embedded / func / chan / unsafe / pointer-to-pointer fields, typed nil pointers, maps with non-string keys or non-interface values, deeply nested documents holding nils) through Execute and Run, followed by a run on a good object; 55 run-time fault scripts; size stress (quick: 9, thorough: 16 nesting / length shapes at 10^2..3*10^6, recursion depth to 10^6) each in its own worker process whose survival is the observation; distinct = distinct script text (x object)"
+	c.rule = "MC_Hostile generates script texts as sequences of 87 lexemes (every token kind, regexp literals opening a group they do not close, brackets, quotes, backslash, NUL, multi-byte characters, keywords, literal fragments): every sequence of length 1-2 (thorough: 3) exhaustively by TLC, longer ones (to 14; thorough 40) in TLC's simulation mode (every candidate successor of every simulated step), each joined with and without spaces; plus every invalid text of MC_Reject; each text goes through Prepare and, if accepted, Execute and Run twice on two objects (a deadline of 60 ms set before Prepare): no call may panic into the harness, Execute may not return (nil, nil), no scope may stay open; 22 field-reading scripts x 32 odd objects (nil, non-struct values, slices whose members the engine cannot convert - []uint16, [][]string, []*T with a nil, []interface{} holding nil / struct / func / chan - read whole, by index and by foreach, structs with unexported / embedded / func / chan / unsafe / pointer-to-pointer fields, typed nil pointers, maps with non-string keys or non-interface values, deeply nested documents holding nils) through Execute and Run, followed by a run on a good object; 55 run-time fault scripts; size stress (quick: 9, thorough: 16 nesting / length shapes at 10^2..3*10^6, recursion depth to 10^6) each in its own worker process whose survival is the observation; distinct = distinct script text (x object)"
 	c.assumptions = []string{"scripts whose single operation needs more memory than the host has are excluded; the memory-growing loops run under a 60 ms deadline", "Dump on an evaluator whose Prepare failed is host misuse and not exercised"}
 	maxLen := 2
 	simNum, simDepth := 30, 14
